@@ -1,4 +1,5 @@
-package main
+// Package allsigners registers every signer module, as main_client.go does.
+package allsigners
 
 // register every signer module, as main_client.go does
 import (
